@@ -5,6 +5,11 @@ from vf import Case
 from props.c10 import hx, spec
 
 TYPES = {'@t': '"s"', '@u': '1', '@o': '{\n  "z": 1\n}'}
+RULES = {'@e': '["abc", 5, null]'}
+
+
+def tspec():
+    return ' '.join(['T %s J %s' % (hx(k), hx(v)) for k, v in TYPES.items()] + ['E %s %s' % (hx(k), hx(v)) for k, v in RULES.items()])
 
 # model: node = ('L', lit, ann) | ('R', [names], ann) | ('A', ann, [node]) | ('O', ann, [(key, node)])
 #        key = ('k', text with quotes) | ('s', '@name');  ann = ([(rule name, rv)], note) ;  rv = ('s', lit) | ('l', [rv]) | ('o', [(name, rv)])
@@ -62,7 +67,7 @@ def a_rv(r, top_name=None):
     if tt == 'object':
         return '{' + ';'.join(k + '=' + a_rv(v) for k, v in (r['Properties'] or {}).items()) + '}'
     v = r['Value']
-    if tt in ('string', 'reference', 'annotation'):
+    if tt in ('string', 'reference', 'annotation', 'shortcut'):
         return 's' + hexd(v.encode('utf-8', 'surrogatepass'))
     return 'l' + hexd(v.encode())
 
@@ -210,6 +215,8 @@ def gen_model(rng, depth=0, prop=False):
                 rules = [('or', ('l', [('o', [('type', ('s', '"integer"')), ('min', ('s', '-100'))]), ('s', '"string"'), ('o', [('type', ('s', '"@t"'))])][:rng.randint(2, 3)]))]
             elif c < 0.85:
                 rules = [('const', ('s', rng.choice(['true', 'false'])))]
+            elif c < 0.93:
+                return ('L', '5', maybe([('enum', ('s', '@e'))], 1.0))
             return ('L', v, maybe(rules))
         if k < 0.5:
             v = rng.choice(['1.5', '-0.25', '3.140'])
@@ -217,9 +224,11 @@ def gen_model(rng, depth=0, prop=False):
                                 [('precision', ('s', '9223372036854775808'))], [('precision', ('s', '18446744073709551615'))], [('precision', ('s', '9223372036854775807'))]])
             return ('L', v, maybe(rules))
         if k < 0.8:
-            v = rng.choice(['"abc"', '"a b"', '"\\u0041bc"', '"é//x"', '"#no comment"', '"/* no */"', '"x@y.org"'])
+            v = rng.choice(['"abc"', '"a b"', '"\\u0041bc"', '"é//x"', '"#no comment"', '"/* no */"', '"x@y.org"', '"\\u0001x"', '"a\\u007fb\\u000b"', '"\\udb80\\udc00"', '"\\\\"'])
             rules = rng.choice([[], [('minLength', ('s', '1'))], [('minLength', ('s', '0')), ('maxLength', ('s', '18446744073709551615'))], [('minLength', ('s', '1')), ('maxLength', ('s', '9223372036854775808'))], [('type', ('s', '"string"'))],
                                 [('regex', ('s', '"."'))], [('enum', ('l', [('s', v), ('s', '"other"')]))], [('nullable', ('s', 'false'))]])
+            if rng.random() < 0.1:
+                return ('L', '"abc"', maybe([('enum', ('s', '@e'))], 1.0))
             if v == '"x@y.org"' and rng.random() < 0.5:
                 rules = [('type', ('s', '"email"'))]
             return ('L', v, maybe(rules))
@@ -275,8 +284,7 @@ class Prop:
 
     def run_impl(self, lines):
         texts = [l.split(' ')[1] for l in lines]
-        tspec = ' '.join('T %s J %s' % (hx(k), hx(v)) for k, v in TYPES.items())
-        res = vf.run_impl(['proj ast %s %s' % (t, tspec) for t in texts])
+        res = vf.run_impl(['proj ast %s %s' % (t, tspec()) for t in texts])
         out = []
         for r in res:
             if re.match(r'^[0-9a-f]+$', r):
